@@ -184,10 +184,25 @@ def run(ctx):
     if cb7:
         st7 = cb7.calls("pgcat::server::Server::startup")
         to7 = cb7.calls("re:^tokio::time::timeout::timeout$")
+        def future_of(t, call):
+            """the future handed to timeout t is the future `call` returned, possibly inside wrappers that are futures themselves (catch_unwind, AssertUnwindSafe,
+            into_future, combinators) - not something computed from its awaited result"""
+            work, n_ = [t.args[1]], 0
+            while work and n_ < 40:
+                n_ += 1
+                for o in origins(cb7, work.pop()):
+                    if o.kind == "call":
+                        if o.call.block == call.block:
+                            return True
+                        if re.search(r"catch_unwind$|into_future$|Pin<.*>::new(_unchecked)?$|Box<.*>::pin$|FutureExt::\w+$|TryFutureExt::\w+$", o.call.name):
+                            work.extend(o.call.args)
+                    elif o.kind == "agg":
+                        work.extend(o.extra.get("ops", []))
+            return False
         if not st7:
             r7.missing("Server::startup in ServerPool::connect")
         else:
-            wrapped = [t for t in to7 if any(o.kind == "call" and o.call.block == st7[0].block for o in origins(cb7, t.args[1], taint=True))]
+            wrapped = [t for t in to7 if future_of(t, st7[0])]
             dur_f = set()
             for t in wrapped:
                 for o in origins(cb7, t.args[0], taint=True):
@@ -197,6 +212,24 @@ def run(ctx):
                      "Server::startup has no deadline: a server that accepts the TCP connection and then says nothing keeps the attempt - and its slot of the pool - for ever; "
                      "with pool_size = 1 every later checkout times out, also after the server has recovered", st7[0].where())
 
+    # ... the whole attempt: everything connect() awaits that talks to the server - the startup, the prewarmer's queries - is the future of a timeout (D86: the
+    # prewarm queries ran with no deadline; a server that completed the startup and then said nothing kept the slot for ever)
+    if cb7:
+        io_roots = ("pgcat::server::Server::recv::{closure#0}", "pgcat::server::Server::send::{closure#0}", "pgcat::server::Server::startup::{closure#0}")
+        to7b = cb7.calls("re:^tokio::time::timeout::timeout$")
+        talks = []
+        for c in cb7.calls():
+            if not c.name.startswith("pgcat::") or c.name.endswith("}"):
+                continue
+            if not any(r_ in F.reachable_fns([c.name, c.name + "::{closure#0}"]) for r_ in io_roots):
+                continue
+            talks.append(c)
+        for c in talks:
+            under = any(future_of(t, c) for t in to7b if len(t.args) > 1)
+            r7.check(under, "attempt-io-under-a-timeout:" + c.name.split("::")[-1] + "@" + c.name.split("::")[-2], "%s(..) in connect() is the future given to a timeout" % c.name.split("::")[-1],
+                     "connect() awaits %s with no deadline: a server that stops answering there keeps the attempt - and the slot of the pool bb8 counts for it - for as long as it likes; with pool_size = 1 "
+                     "no later checkout is served, also after the server has recovered" % c.name.replace("pgcat::", ""), c.where())
+        r7.check(len(talks) >= 2, "attempt-io-sites", "%d calls of connect() talk to the server (%s)" % (len(talks), ", ".join(c.name.split("::")[-1] for c in talks)), "expected the startup and the prewarmer among connect()'s server I/O, found %s" % [c.name for c in talks])
     # ... and comes back whatever the server sends: bb8 runs connect() in a task of its own and counts the attempt until the call *returns*. Server::startup parses
     # the server's bytes with unwraps, slices and unchecked reads; a panic there would unwind through connect() and bb8 would never get the attempt back - one slot of
     # pool_size gone for good per such reply. The startup future is awaited under catch_unwind, a panic ends the attempt like any other failure (D78)
